@@ -10,14 +10,15 @@
 (***************************************************************************)
 EXTENDS Integers, FiniteSets, FiniteSetsExt
 
-CONSTANTS Keys,      \* key universe (non-negative integers)
+CONSTANTS NK, KOff,  \* key universe = NK consecutive integers starting at -KOff (negative keys are keys too)
           NT,        \* number of index ids (1 = no clones)
           NI         \* number of iterator ids
 
 VARIABLES S,         \* S[t]  : the set held by index t
           it         \* it[j] : [live, tree, cur]   cur \in Keys \cup {Done}
 
-Done == -1
+Keys == (0 - KOff)..(NK - 1 - KOff)
+Done == -999999            \* "finished"; outside every key universe used
 Trees == 1..NT
 Iters == 1..NI
 
